@@ -30,6 +30,7 @@ def main(tier, seed):
     rep = profcheck.run(PROP, tier, seed, plan, feature=uses_closure)
     bins = [("dev", vlib.build_harness("dev")), ("release", vlib.build_harness("release"))]
     profcheck.run_scenarios(rep, "capture", scenarios.capture_scenarios(), bins, PROP)
+    profcheck.run_scenarios(rep, "captureorder", scenarios.capture_order_scenarios(), bins, PROP)
     rep.coverage["exhaustive"] = True
     rep.coverage["rule"] = ("programs over <= 2 variable names and 2 function names with blocks, functions, lambdas reading / writing a captured "
                             "variable, calls after scope exit, loops (per-iteration variables, the shared loop variable), shadowing; name "
